@@ -270,8 +270,10 @@ func (f *formatter) StmtClass(n *ast.StmtClass) {
 
 	n.ClassTkn = f.newToken(token.T_CLASS, []byte("class"))
 
-	f.addFreeFloating(token.T_WHITESPACE, []byte(" "))
-	n.Name.Accept(f)
+	if n.Name != nil {
+		f.addFreeFloating(token.T_WHITESPACE, []byte(" "))
+		n.Name.Accept(f)
+	}
 
 	n.OpenParenthesisTkn = nil
 	n.CloseParenthesisTkn = nil
